@@ -47,6 +47,9 @@ class CellTranslator(AbstractTranslator):
                     context._cells_in_translation.discard(cell_uid)
             elif cell.value is None:
                 code = 'self.EmptyCell()'
+            elif isinstance(cell.value, float) and (cell.value != cell.value or cell.value in (float('inf'), float('-inf'))):
+                # repr() would put the bare name inf or nan into the class
+                raise E2PyclParserException(f'Value of {cell} is not a finite number')
             elif isinstance(cell.value, (bool, int, float, str, datetime.date, datetime.time, datetime.timedelta)):
                 code = repr(cell.value)
             else:
